@@ -187,9 +187,17 @@ async fn wait_until(limit: Duration, mut f: impl FnMut() -> bool) -> bool {
     }
 }
 
+/// A port nobody in this process is using for another case (process-wide counter, so two cases never race
+/// for one port) and that the OS lets us bind right now. Whether *our unit* got it is checked afterwards
+/// through the unit's own `listener_bound_count` (another process may take it in between).
+static NEXT_PORT: std::sync::atomic::AtomicUsize = std::sync::atomic::AtomicUsize::new(0);
 fn free_port() -> u16 {
-    let l = std::net::TcpListener::bind("127.0.0.1:0").unwrap();
-    l.local_addr().unwrap().port()
+    loop {
+        let n = NEXT_PORT.fetch_add(1, std::sync::atomic::Ordering::SeqCst);
+        let base = 20000 + (std::process::id() as usize % 350) * 100;
+        let port = (base + n % 100 + (n / 100) * 7 % 100) as u16;
+        if std::net::TcpListener::bind(("127.0.0.1", port)).is_ok() { return port; }
+    }
 }
 
 fn update_id(u: &Update) -> Option<u32> {
@@ -215,6 +223,8 @@ fn show_update(u: &Update) -> String {
 }
 
 const SETTLE: Duration = Duration::from_millis(250);
+/// upper bound when something is expected to arrive (the wait ends as soon as it does)
+const ARRIVE: Duration = Duration::from_secs(4);
 
 async fn run_async(scn: &Scn, blobs: &mut HashMap<Vec<u8>, u32>) -> Raw {
     let reg = Arc::new(ving::new_register());
@@ -229,16 +239,12 @@ async fn run_async(scn: &Scn, blobs: &mut HashMap<Vec<u8>, u32>) -> Raw {
         let target = Arc::new(FnTarget(Arc::new(move |u: Update| { c2.lock().unwrap().push(u); })));
         link.set_direct_update_target(target.clone());
         let _ = link.connect(false).await;
-        // the listener is bound once a connection attempt is accepted by the OS; probe with a throw-away
-        // source address that no generated configuration matches (192.0.2.x is never used: loopback only)
-        let ok = wait_until(Duration::from_secs(2), || std::net::TcpStream::connect_timeout(&SocketAddr::from(([127, 0, 0, 1], port)), Duration::from_millis(50)).is_ok()).await;
+        // our own unit says it is listening (not: "somebody accepts connections on that port")
+        let ok = wait_until(Duration::from_millis(900), || u.listener_bound_count() >= 1).await;
         if ok { unit = Some((u, link, target)); break; }
         u.task.abort();
     }
     let Some((unit, _link, _target)) = unit else { return Raw { toks: vec!["no-listener".into()], updates: vec![], live: vec![], next: 0, panicked: false, flood: 0 } };
-    // the probe connection came from 127.0.0.1, which generated configurations never match … unless a
-    // prefix entry covers it: then it consumed an ingress id; account for it by reading the serial now.
-    tokio::time::sleep(Duration::from_millis(5)).await;
     let mut conns: Vec<Conn> = vec![];
     let mut toks: Vec<String> = vec![];
     let mut stamped: Vec<(usize, Update)> = vec![];
@@ -297,7 +303,7 @@ async fn run_async(scn: &Scn, blobs: &mut HashMap<Vec<u8>, u32>) -> Raw {
                         let n0 = collected.lock().unwrap().len();
                         let sent = s.write_all(&pdu).await.is_ok();
                         let c3 = collected.clone();
-                        let arrived = sent && wait_until(SETTLE, || c3.lock().unwrap().len() > n0).await;
+                        let arrived = sent && wait_until(if terminated { SETTLE } else { ARRIVE }, || c3.lock().unwrap().len() > n0).await;
                         if arrived { "sent".into() } else { "lostupd".into() }
                     }
                 }
@@ -319,13 +325,13 @@ async fn run_async(scn: &Scn, blobs: &mut HashMap<Vec<u8>, u32>) -> Raw {
                                 let _ = s.write_all(&b).await;
                                 // keep the socket open: only the bytes can end the session
                                 let c3 = collected.clone();
-                                wait_until(SETTLE, || c3.lock().unwrap().len() > n0).await;
+                                wait_until(if *kind == 0 || terminated { SETTLE } else { ARRIVE }, || c3.lock().unwrap().len() > n0).await;
                                 drop(s);
                             }
                             _ => { let _ = s.shutdown().await; drop(s); }
                         }
                         let c3 = collected.clone();
-                        let ended = wait_until(SETTLE, || c3.lock().unwrap().len() > n0).await;
+                        let ended = wait_until(if matches!(op, Op::Garbage(_, 0)) && !terminated { SETTLE } else { ARRIVE }, || c3.lock().unwrap().len() > n0).await;
                         if ended { "ended".into() } else { "noend".into() }
                     }
                     _ => "nc".into(),
